@@ -70,9 +70,10 @@ class VModule(object):
 
 class Exc(object):
   """Exceptional result of evaluating an expression/statement."""
-  def __init__(self, cls, node=None, value=None):
+  def __init__(self, cls, node=None, desc='', value=None):
     self.cls = cls
     self.node = node
+    self.desc = desc
     self.value = value
 
   def __repr__(self):
